@@ -14,6 +14,8 @@ import Larking.Model.Registry
 import Larking.Model.Events
 import Larking.Model.Proxy
 import Larking.Model.Mount
+import Larking.Model.WebWriter
+import Larking.Model.Lifecycle
 import Larking.Gen.Params
 import Larking.Gen.Lexer
 namespace Larking.Driver
@@ -467,8 +469,41 @@ def handleMount : List String → Option String
         | .notFound => "none")
   | _ => none
 
+/-- an `http.Header` on the wire of the protocol: `key=v1,v2;key=…` in hex ("-" = empty). -/
+def parseHdr (s : String) : Option Metadata.MD :=
+  if s == "-" || s.isEmpty then some [] else
+  (s.splitOn ";").mapM fun e =>
+    match e.splitOn "=" with
+    | [k, vs] => do
+        let k ← hexArg k
+        let vs ← if vs.isEmpty then some [] else (vs.splitOn ",").mapM fun h => hexArg (if h == "-" then "" else h)
+        pure (k, vs)
+    | _ => none
+
+def handleWeb : List String → Option String
+  | ["webtrailer", ct, first, final] => do
+      -- `first` = the header map when the header block went out ("!" = nothing was ever written),
+      -- `final` = the header map when the handler had returned
+      let ct ← hexArg ct
+      let final ← parseHdr final
+      let w : Web.W ← if first == "!" then some ⟨final, [], false⟩ else do
+        let first ← parseHdr first
+        pure { Web.seeHeaders ct ⟨first, [], false⟩ with hdr := final }
+      match Web.flush w with
+      | none => pure "no-frame"
+      | some tr =>
+        let es := tr.map fun kv => toHex kv.1 ++ "=" ++ ",".intercalate (kv.2.map toHex)
+        pure (";".intercalate (es.mergeSort fun a b => decide (a ≤ b)))
+  | ["lifecycle", guarded, steps] =>
+      let st := steps.toList.filterMap fun c =>
+        match c with
+        | 'b' => some Lifecycle.Step.begin | 'd' => some .done | 'm' => some .mark | 'w' => some .wait | _ => none
+      let s := Lifecycle.run (guarded == "true") st Lifecycle.init
+      some s!"{s.closed},{s.count},{s.waited},{s.refused}"
+  | _ => none
+
 def handlers : List (List String → Option String) :=
-  [handleC05, handleC14C15, handleC17, handleC19, handleC04, handleRouting, handleStreams, handleParams, handleRegistry, handleEvents, handleProxy, handleMount]
+  [handleC05, handleC14C15, handleC17, handleC19, handleC04, handleRouting, handleStreams, handleParams, handleRegistry, handleEvents, handleProxy, handleMount, handleWeb]
 
 def handle (args : List String) : String :=
   match handlers.findSome? (fun h => h args) with
